@@ -1,8 +1,129 @@
 import RichModel.Drv.Proto
-/- Driver handlers for property C18 (stub: filled in when the model is built). -/
+import RichModel.Model.Color
+/- Driver handlers for property C18 (colour down-conversion, SGR parameters, palette search).
+
+Colour on the wire: `name<TAB>type<TAB>number<TAB>triplet` with name = code points, type = 0..4,
+number = `-` | decimal, triplet = `-` | `r,g,b`.  Anything that does not parse as naturals (negative
+numbers, floats) or a triplet component above 255 (float facts not validated there) is `unmodelled`. -/
 namespace RichModel.Drv.C18
 open RichModel RichModel.Proto
 
-def handlers : List (String × (List String → String)) := []
+def P : Palettes := richPalettes
+
+def decType : String → Option ColorType
+  | "0" => some .default | "1" => some .standard | "2" => some .eightBit
+  | "3" => some .truecolor | "4" => some .windows | _ => none
+
+def decSystem : String → Option ColorSystem
+  | "1" => some .standard | "2" => some .eightBit | "3" => some .truecolor | "4" => some .windows | _ => none
+
+/-- `-` → `some none`; decimal → `some (some n)`; otherwise `none` (unmodelled). -/
+def decOpt (s : String) : Option (Option Nat) :=
+  if s == "-" then some none else s.toNat?.map some
+
+def decTriplet (s : String) : Option (Option Triplet) :=
+  if s == "-" then some none else
+  match s.splitOn "," with
+  | [r, g, b] =>
+    match r.toNat?, g.toNat?, b.toNat? with
+    | some r, some g, some b => if r ≤ 255 ∧ g ≤ 255 ∧ b ≤ 255 then some (some ⟨r, g, b⟩) else none
+    | _, _, _ => none
+  | _ => none
+
+def decColor (name ty num tri : String) : Option Color := do
+  let t ← decType ty
+  let n ← decOpt num
+  let tr ← decTriplet tri
+  pure { name := decStr name, type := t, number := n, triplet := tr }
+
+def encErr : PyErr → String
+  | .assertionError => "err:AssertionError"
+  | .indexError => "err:IndexError"
+  | .valueError => "err:ValueError"
+
+def encTriplet (t : Triplet) : String := s!"{t.red},{t.green},{t.blue}"
+
+def encColor (c : Color) : String :=
+  toString c.type.toNat ++ "|" ++ encOptNat c.number ++ "|" ++
+    (match c.triplet with | none => "-" | some t => encTriplet t) ++ "|" ++ encStr c.name
+
+def encRes {α : Type} (f : α → String) : Except PyErr α → String
+  | .ok a => "ok " ++ f a
+  | .error e => encErr e
+
+def cfgOf (flag : String) : Cfg := { Cfg.today with stdViaPalette := decBool flag }
+
+def palOf : String → Option (List Triplet)
+  | "s" => some P.standard | "w" => some P.windows | "e" => some P.eightBit | "t" => some P.ansiColors | _ => none
+
+def handlers : List (String × (List String → String)) := [
+  ("color.downgrade", fun a => match a with
+    | [flag, name, ty, num, tri, sys] =>
+      match decColor name ty num tri, decSystem sys with
+      | some c, some s => encRes encColor (downgrade (cfgOf flag) P c s)
+      | _, _ => "unmodelled"
+    | _ => "bad-args"),
+  ("color.ansi", fun a => match a with
+    | [name, ty, num, tri, fg] =>
+      match decColor name ty num tri with
+      | some c => encRes (fun l => ",".intercalate (l.map toString)) (getAnsiCodes c (decBool fg))
+      | none => "unmodelled"
+    | _ => "bad-args"),
+  ("color.truecolor", fun a => match a with
+    | [name, ty, num, tri, fg] =>
+      match decColor name ty num tri with
+      | some c => encRes encTriplet (getTruecolor P c (decBool fg))
+      | none => "unmodelled"
+    | _ => "bad-args"),
+  -- Palette.match / Palette.__getitem__ on one of the translated palettes
+  ("color.match", fun a => match a with
+    | [pal, tri] =>
+      match palOf pal, decTriplet tri with
+      | some p, some (some t) => encRes toString (paletteMatch p t)
+      | _, _ => "unmodelled"
+    | _ => "bad-args"),
+  ("color.palget", fun a => match a with
+    | [pal, n] =>
+      match palOf pal, n.toNat? with
+      | some p, some n => encRes encTriplet (paletteGet p n)
+      | _, _ => "unmodelled"
+    | _ => "bad-args"),
+  -- a block of 256 truecolor colours (r, g, 0..255) downgraded to `sys`: the 256 resulting numbers
+  ("color.dg_block", fun a => match a with
+    | [flag, r, g, sys] =>
+      match r.toNat?, g.toNat?, decSystem sys with
+      | some r, some g, some s =>
+        if r ≤ 255 ∧ g ≤ 255 then
+          " ".intercalate ((List.range 256).map (fun b =>
+            match downgrade (cfgOf flag) P { name := [], type := .truecolor, number := none, triplet := some ⟨r, g, b⟩ } s with
+            | .ok c => encOptNat c.number
+            | .error e => encErr e))
+        else "unmodelled"
+      | _, _, _ => "unmodelled"
+    | _ => "bad-args"),
+  -- the floating point facts: saturation decision and grey level at (max, min); cube coordinate of a channel
+  ("color.satgray", fun a => match a with
+    | [mx, mn] =>
+      match mx.toNat?, mn.toNat? with
+      | some M, some m =>
+        if m ≤ M ∧ M ≤ 255 then
+          let t : Triplet := ⟨M, m, m⟩
+          encBool (satLow Cfg.today.satExc t) ++ " " ++ toString (grayLevel t)
+        else "unmodelled"
+      | _, _ => "unmodelled"
+    | _ => "bad-args"),
+  ("color.cube", fun a => match a with
+    | [c] => match c.toNat? with
+      | some c => if c ≤ 255 then toString (cubeCoord c) else "unmodelled"
+      | none => "unmodelled"
+    | _ => "bad-args"),
+  -- the integer under the square root of get_color_distance
+  ("color.dist2", fun a => match a with
+    | [t1, t2] =>
+      match decTriplet t1, decTriplet t2 with
+      | some (some x), some (some y) => toString (colorDist2 x y)
+      | _, _ => "unmodelled"
+    | _ => "bad-args")
+]
 
 end RichModel.Drv.C18
